@@ -318,14 +318,16 @@ def defect_pattern(c):
     dual = lambda d: allowed_versions(d) == [3, 2]  # noqa: E731
     if "no CipherSuites satisfy" in sv["err"] and cl["class"] == "pending":
         return "server-cipher-suites-empty-after-filter-no-alert"
-    if "invalid signature/hash algorithm" in sv["err"] + cl["err"]:
-        return "rsa-key-on-dtls13-certificate-verify-not-encodable"
     if cl["class"] == "pending" and sv["class"] == "pending" and dual(cc) and dual(sc) and not c["mask"]:
         return "dual-stack-client-and-server-deadlock"
     if "packet length and declared length do not match" in cl["err"] and dual(cc):
         return "dual-stack-client-cannot-read-serverhello-with-protected-flight"
-    if any(x.get("wrapped") for x in (c["alerts"] or [])):
-        return "handshake-alert-wrapped-in-unencrypted-cid-record"
+    if cl["class"] == "pending" and sv["class"] == "pending" and dual(cc) and allowed_versions(sc) == [3] \
+            and sc["skip_hv"] and not c["mask"] and c["sh"]["seen"] and not c["hrr_seen"]:
+        # same cause since "discard datagrams that cannot be split into records": the datagram carrying the
+        # ServerHello followed by DTLS 1.3 ciphertext records is now dropped by the DTLS 1.2 unpacker instead of
+        # failing the client, so both sides wait
+        return "dual-stack-client-cannot-read-serverhello-with-protected-flight"
     if any(x["epoch"] >= 2 for x in (c["alerts"] or [])) and "pending" in (cl["class"], sv["class"]):
         return "dtls13-unprotected-alert-under-handshake-epoch-ignored-by-peer"
     return "other"
